@@ -9,7 +9,7 @@ func c19(c *hx.Ctx) {
 	c.Type = "c19_case"
 	c.Agree = "c19_agree"
 	c.Rule = "sequential scripts against the real client behind a scripted relay: honest messages of A mixed with bit-flipped bodies/signatures, third-key messages claiming A, third-key and reflected own messages, re-contextualised and transplanted signatures, empty body/sender, altered sequence numbers, plus acks, clears, re-opens, stream failures and application Send/Recv/cancel; per operation the requests written, execute's error class, the tracker snapshot and every call's status are compared with the model; non-trivial = script in which a Recv returned or a Send was started"
-	runScripts(c, c.N, &profC19, fixedC19(), func(g *genState, desc map[string]any) {
+	runScripts(c, c.N, &profC19, fixedC19(), false, func(g *genState, desc map[string]any) {
 		// direct oracle 1: everything Recv returned is one of A's honest messages, unaltered
 		for _, m := range g.r.recvGot() {
 			sy := g.r.tab.lookup(m)
